@@ -141,7 +141,7 @@ PROPS = {
     "C06": {
         "level": "model_checking",
         "technique": "explicit-state search over raw wire message histories against a real ServerSession, with a reference lifecycle-gate model checked after every message",
-        "claim": "all sequences (exhaustive up to the shallow depth, state-deduplicated beyond) over a 19-message alphabet (initialize variants, initialized, ping, cancelled, legacy and 2026-07-28 list/call with complete/incomplete/unsupported/invalid metadata, discover, setLevel, subscribe, roots-changed, removed methods) are sent over the in-memory pipe; per message the response class/code, the methods reaching the handler layer (receiving middleware), user-handler invocation counts and session state are compared with the reference gate; a second search drives the stateful streamable handler with POSTs (initialize, initialized, legacy list/call with and without session id, calls carrying complete/incomplete 2026-07-28 _meta with the version header absent / legacy / modern, discover): a request reaches the feature handlers iff it is a legacy request on the session that went through initialize, and no other request leaves an initialized session behind",
+        "claim": "all sequences (exhaustive up to the shallow depth, state-deduplicated beyond) over a 21-message alphabet (initialize variants, initialized, ping, cancelled, legacy and 2026-07-28 list/call with complete/incomplete/unsupported/invalid metadata, discover, setLevel, subscribe, roots-changed, removed methods) are sent over the in-memory pipe; per message the response class/code, the methods reaching the handler layer (receiving middleware), user-handler invocation counts and session state are compared with the reference gate (a refused request, including one with complete 2026-07-28 metadata but an unknown method or undecodable parameters, leaves no trace); a second search drives the stateful streamable handler with POSTs (initialize, initialized, legacy list/call with and without session id, calls carrying complete/incomplete 2026-07-28 _meta with the version header absent / legacy / modern, discover): a request reaches the feature handlers iff it is a legacy request on the session that went through initialize, and no other request leaves an initialized session behind",
         "note": "message alphabet fixed (one representative per class); histories beyond the stated depth are outside the bound; deduplication key = (InitializeParams version, InitializedParams present, log level)",
         "parts": [
             {"pkg": "mcp", "mode": "plain", "test": "TestVerifC06", "shards": 1, "gomaxprocs": 16, "time_s": {"quick": 150, "thorough": 1500}, "scenario_prefix": "wire-"},
@@ -154,7 +154,7 @@ PROPS = {
         "engine": "explore (full configuration product)",
         "technique": "exhaustive enumeration of the finite configuration matrix on the real client, server and transports (HTTP served in-process), against a reference negotiation function; plus stateless model checking (controlled scheduler, delay-bounded) of a server/discover racing the set-up of its HTTP+SSE session",
         "uses_vsched": True,
-        "claim": "8 requested versions (default, the 5 supported, an unknown older and newer string) x {in-memory, io pipes} x 3 advertised sets + SSE + streamable {stateful, stateless} x JSON responses x event store = 120 cells, each Connect+ListTools+CallTool: Connect fails only when the request is not mutually supported and no fallback applies (a modern or unknown-newer request against a server without modern overlap but with shared legacy versions must fall back to initialize and connect); otherwise the negotiated version is SDK-supported, servable by the transport (never 2026-07-28 on SSE/stateful), equals the request when mutually supported; discover is followed by an initialize fallback iff no modern overlap (observed on the wire); plus 135 scripted non-SDK servers (discover answers x initialize answers x requests): the negotiated version was offered by the server and is SDK-supported, or Connect fails; (E1) a raw HTTP+SSE peer POSTs server/discover the moment the endpoint event is out, while the GET is still inside Server.Connect: on every schedule within B<=4 (thorough 5) the answer never lists 2026-07-28",
+        "claim": "8 requested versions (default, the 5 supported, an unknown older and newer string) x {in-memory, io pipes} x 3 advertised sets + SSE + streamable {stateful, stateless} x JSON responses x event store = 120 cells, each Connect+ListTools+CallTool: Connect fails only when the request is not mutually supported and no fallback applies (a modern or unknown-newer request against a server without modern overlap but with shared legacy versions must fall back to initialize and connect); otherwise the negotiated version is SDK-supported, servable by the transport (never 2026-07-28 on SSE/stateful), equals the request when mutually supported; discover is followed by an initialize fallback iff no modern overlap (observed on the wire); plus 231 scripted non-SDK servers over the in-memory pipe (discover answers incl. lists naming the requested unknown version x initialize answers x requests): the negotiated version was offered by the server and is SDK-supported, or Connect fails; 36 scripted legacy servers behind HTTP (streamable and HTTP+SSE client; server/discover refused with 404/400/405, with or without a JSON-RPC body, or with a JSON-RPC method-not-found): the client falls back to initialize and connects; server transports wrapped in LoggingTransport keep their version restriction; (E1) a raw HTTP+SSE peer POSTs server/discover the moment the endpoint event is out, while the GET is still inside Server.Connect: on every schedule within B<=4 (thorough 5) the answer never lists 2026-07-28",
         "note": "a custom transport's ProtocolVersionSupporter is only held against versions >= 2026-07-28 (it filters what server/discover advertises; the legacy initialize handshake does not consult it)",
         "parts": [
             {"pkg": "mcp", "mode": "plain", "test": "TestVerifC07", "shards": 8, "scenario_prefix": ""},
